@@ -148,3 +148,43 @@ def picks(args, menus):
         else:
             out.append(m[pick(a, len(m))])
     return out
+
+
+_REAL_OK = {}
+
+
+def real_stack(kind="wsgi"):
+    """Is the REAL stack usable in this environment?  (kind: 'wsgi' = real on-disk repositories through the WSGI entry,
+    xv/real_e2e.py; 'aiohttp' = a real aiohttp server on a loopback socket, xv/real_aio.py.)  Probed once per process
+    with a trivial job on a scratch directory.  The real-stack harnesses return (True, "real-unavailable") when the
+    probe fails - they then decide nothing, which the evidence shows as an unwitnessed class - and treat any later
+    failure of the driver as a failure of the check."""
+    if kind in _REAL_OK:
+        return _REAL_OK[kind]
+    import json
+    import os
+    import subprocess
+    import xv
+    here = os.path.dirname(os.path.abspath(__file__))
+    env = {"PATH": os.environ.get("PATH", ""), "PYTHONPATH": xv.REPO}
+    ok = False
+    try:
+        if kind == "wsgi":
+            job = {"raw": True, "cal": {}, "ab": {}, "scripts": [[{"m": "OPTIONS", "p": "/user/calendars/cal/"}]]}
+            p = subprocess.run(["/venv/bin/python", os.path.join(here, "real_e2e.py")], input=json.dumps(job),
+                               capture_output=True, text=True, cwd=xv.REPO, env=env, timeout=120)
+            ok = p.returncode == 0 and json.loads(p.stdout)[0][0]["st"] == 200
+            g = subprocess.run(["git", "--version"], capture_output=True, text=True, env=env, timeout=30)
+            ok = ok and g.returncode == 0
+        else:
+            job = {"raw": True, "prefix": "/", "cal": {}, "ab": {}, "scripts": [[{"m": "OPTIONS", "p": "/user/calendars/cal/"}]]}
+            p = subprocess.run(["/venv/bin/python", os.path.join(here, "real_aio.py"), "-"], input=json.dumps(job),
+                               capture_output=True, text=True, cwd=xv.REPO, env=env, timeout=120)
+            ok = p.returncode == 0 and json.loads(p.stdout)[0][0]["st"] == 200
+    except Exception:
+        ok = False
+    if not ok:
+        import sys
+        sys.stderr.write("xv: the real stack (%s) is not usable in this environment; real-stack harnesses are skipped\n" % kind)
+    _REAL_OK[kind] = ok
+    return ok
